@@ -543,6 +543,40 @@ func TestLintWithAggregateRule(t *testing.T) {
 	}
 }
 
+// an aggregate rule reporting on the *absence* of aggregated data must also run when it is the only
+// rule enabled, i.e. when no rule contributed any aggregate.
+func TestLintWithAggregateRuleReportingOnNoAggregates(t *testing.T) {
+	t.Parallel()
+
+	policies := map[string]string{
+		"foo.rego": "package foo\n\nallow := true\n",
+		"bar.rego": "package bar\n\ndeny := false\n",
+	}
+
+	modules := make(map[string]*ast.Module)
+
+	for filename, content := range policies {
+		modules[filename] = parse.MustParseModule(content)
+	}
+
+	input := rules.NewInput(policies, modules)
+
+	linter := NewLinter().
+		WithDisableAll(true).
+		WithEnabledRules("no-defined-entrypoint").
+		WithInputModules(&input)
+
+	result := testutil.Must(linter.Lint(context.Background()))(t)
+
+	if len(result.Violations) != 1 {
+		t.Fatalf("expected one violation, got %d", len(result.Violations))
+	}
+
+	if result.Violations[0].Title != "no-defined-entrypoint" {
+		t.Errorf("expected violation to be 'no-defined-entrypoint', got %q", result.Violations[0].Title)
+	}
+}
+
 func TestEnabledRules(t *testing.T) {
 	t.Parallel()
 
